@@ -49,8 +49,8 @@ Record oracle := mkOracle {
 
 Record params := mkParams { p_threshold : Z; p_multiple : Z; p_fraction : Z; p_window : Z }.
 
-Record ubd := mkUbd { u_orc : Z; u_val : Z; u_time : Z; u_amt : Z }.
-Record red := mkRed { r_orc : Z; r_dst : Z; r_time : Z }.
+Record ubd := mkUbd { u_orc : Z; u_val : Z; u_time : Z; u_amt : Z; u_h : Z; u_init : Z }.   (* + creation height, initial balance *)
+Record red := mkRed { r_orc : Z; r_dst : Z; r_time : Z; r_src : Z; r_h : Z; r_init : Z; r_shr : Z }.   (* + source, creation height, initial balance, shares created at the destination *)
 
 (* an object oracles must sign: oracle set (nonce, creation height), batch (id, block), outgoing
    bridge call (nonce, block height).  Confirms are stored under (object, oracle address) and
@@ -60,7 +60,8 @@ Record obj := mkObj { ob_nonce : Z; ob_height : Z; ob_conf : list (Z * Z * Z) }.
 Inductive kind := KSet | KBatch | KCall.
 
 (* the staking validators the oracles delegate to: operator ids, Tokens, DelegatorShares (LegacyDec scaled 10^18) *)
-Record vset := mkV { v_ids : list Z; v_tok : Z -> Z; v_shr : Z -> Z }.
+(* v_stat: 0 bonded, 1 unbonding (until v_until), 2 unbonded *)
+Record vset := mkV { v_ids : list Z; v_tok : Z -> Z; v_shr : Z -> Z; v_stat : Z -> Z; v_until : Z -> Z }.
 
 Record state := mkState {
   height : Z;                      (* ctx.BlockHeight() of the open block *)
@@ -172,7 +173,8 @@ Definition shares_from_tokens (tok shr amt : Z) : Z := shr * amt / tok.
 (* Validator.SharesFromTokensTruncated(amt) : delegatorShares.MulInt(amt).QuoTruncate(Dec(tokens)) *)
 Definition shares_from_tokens_trunc (tok shr amt : Z) : Z := shr * amt * dec_one * dec_one / (tok * dec_one) / dec_one.
 
-Definition set_val (V : vset) (v tok shr : Z) : vset := mkV (v_ids V) (upd (v_tok V) v tok) (upd (v_shr V) v shr).
+Definition set_val (V : vset) (v tok shr : Z) : vset := mkV (v_ids V) (upd (v_tok V) v tok) (upd (v_shr V) v shr) (v_stat V) (v_until V).
+Definition set_stat (V : vset) (v st untl : Z) : vset := mkV (v_ids V) (v_tok V) (v_shr V) (upd (v_stat V) v st) (upd (v_until V) v untl).
 
 (* keeper.Delegate (validator bonded): AddTokensFromDel, delegation shares grow by the issued shares *)
 Definition stk_delegate (V : vset) (dl : Z -> Z -> Z) (a v amt : Z) : option (vset * (Z -> Z -> Z)) :=
@@ -307,7 +309,12 @@ Definition re_delegate (s : state) (a v rw : Z) : res :=
             Ok (mkState (height s) (now s) (ubtime s) V2 (prm s) (proposal s) (keys s)
                   (upd (recs s) a (Some r')) (by_bridger s) (by_ext s) (total_power s)
                   dl2
-                  (ubds s) (reds s ++ [mkRed a v (now s + ubtime s)])
+                  (ubds s)
+                  (* getBeginInfo: no entry when the source validator is unbonded, its own completion time while it is unbonding *)
+                  (let st := v_stat (vals s) (o_val r) in
+                   if st =? 2 then reds s
+                   else reds s ++ [mkRed a v (if st =? 1 then v_until (vals s) (o_val r) else now s + ubtime s)
+                                         (o_val r) (height s) back (dl2 a v - dl1 a v)])
                   (bal_o s) (upd (bal_d s) a (bal_d s a + rw))
                   (sets s) (latest_set s) (slashed_set s) (last_slash_height s) (batches s)
                   (slashed_batch_block s) (calls s) (slashed_call s) (next_call s) (burned s) (gov_und s) (set_mem s) (last_obs s))
@@ -400,7 +407,7 @@ Definition gov_unbond1 (rws : list (Z * Z)) (acc : option state) (r : oracle) : 
         Some (mkState (height s) (now s) (ubtime s) V' (prm s) (proposal s) (keys s)
                 (upd (recs s) a (Some r')) (by_bridger s) (by_ext s) (total_power s)
                 dl'
-                (ubds s ++ [mkUbd a (o_val r) (now s + ubtime s) back]) (reds s)
+                (ubds s ++ [mkUbd a (o_val r) (now s + ubtime s) back (height s) back]) (reds s)
                 (bal_o s) (upd (bal_d s) a (bal_d s a + lookup_rw a rws))
                 (sets s) (latest_set s) (slashed_set s) (last_slash_height s) (batches s)
                 (slashed_batch_block s) (calls s) (slashed_call s) (next_call s) (burned s)
@@ -557,6 +564,60 @@ Definition slash_val (s : state) (v amount : Z) : res :=
    and shares; observed values *)
 Definition env_val (s : state) (v tok shr : Z) : res :=
   Ok (set_vals_deleg s (set_val (vals s) v tok shr) (deleg s)).
+
+(* staking Keeper.Slash of validator v for an infraction at an EARLIER height hinf (evidence / downtime handling).
+   Besides the validator's tokens it cuts (slash.go SlashUnbondingDelegation, SlashRedelegation):
+   1. every not yet matured unbonding entry at v created at or after hinf, by min(fraction * initial balance, balance);
+   2. for every not yet matured redelegation away from v created at or after hinf: first the delegator's unbonding
+      entries at the destination, then fraction * (shares created at the destination) of its delegation there
+      (Unbond: the delegation hook pays the pending rewards).
+   What all delegators together lose on the validators is taken as observed ([vs]: id, tokens, shares afterwards);
+   the effects on this module's oracles are computed. *)
+Definition cut_amount (frac init : Z) : Z := frac * init / dec_one.
+
+Fixpoint cut_entries (hinf t a dst : Z) (sa : Z) (l : list ubd) : Z * list ubd :=
+  match l with
+  | [] => (sa, [])
+  | u :: rest =>
+    if (u_orc u =? a) && (u_val u =? dst) then
+      let x := Z.min sa (u_amt u) in
+      if (x =? 0) || (u_h u <? hinf) || (u_time u <=? t) then
+        let (sa', rest') := cut_entries hinf t a dst sa rest in (sa', u :: rest')
+      else
+        let (sa', rest') := cut_entries hinf t a dst (sa - x) rest in
+        (sa', mkUbd (u_orc u) (u_val u) (u_time u) (u_amt u - x) (u_h u) (u_init u) :: rest')
+    else let (sa', rest') := cut_entries hinf t a dst sa rest in (sa', u :: rest')
+  end.
+
+Record pstate := mkP { p_ubds : list ubd; p_deleg : Z -> Z -> Z; p_bald : Z -> Z }.
+
+Definition slash_red (hinf t frac : Z) (rws : list (Z * Z)) (st : pstate) (r : red) : pstate :=
+  let (sa, ub) := cut_entries hinf t (r_orc r) (r_dst r) (cut_amount frac (r_init r)) (p_ubds st) in
+  let sh := round_he (frac * r_shr r) in
+  let dsh := p_deleg st (r_orc r) (r_dst r) in
+  if (sh =? 0) || (sa =? 0) || (dsh =? 0) then mkP ub (p_deleg st) (p_bald st)
+  else mkP ub (upd2 (p_deleg st) (r_orc r) (r_dst r) (dsh - Z.min sh dsh))
+              (upd (p_bald st) (r_orc r) (p_bald st (r_orc r) + lookup_rw (r_orc r) rws)).
+
+Definition set_vals_list (V : vset) (vs : list (Z * Z * Z)) : vset :=
+  fold_left (fun V x => set_val V (fst (fst x)) (snd (fst x)) (snd x)) vs V.
+
+Definition slash_past (s : state) (v hinf frac : Z) (vs : list (Z * Z * Z)) (rws : list (Z * Z)) : res :=
+  let t := now s in
+  let ub1 := map (fun u => if (u_val u =? v) && (hinf <=? u_h u) && negb (u_time u <=? t)
+                           then mkUbd (u_orc u) (u_val u) (u_time u) (u_amt u - Z.min (cut_amount frac (u_init u)) (u_amt u)) (u_h u) (u_init u)
+                           else u) (ubds s) in
+  let rs := filter (fun r => (r_src r =? v) && (hinf <=? r_h r) && negb (r_time r <=? t)) (reds s) in
+  let st := fold_left (slash_red hinf t frac rws) rs (mkP ub1 (deleg s) (bal_d s)) in
+  Ok (mkState (height s) (now s) (ubtime s) (set_vals_list (vals s) vs) (prm s) (proposal s) (keys s)
+        (recs s) (by_bridger s) (by_ext s) (total_power s) (p_deleg st) (p_ubds st) (reds s)
+        (bal_o s) (p_bald st) (sets s) (latest_set s) (slashed_set s) (last_slash_height s)
+        (batches s) (slashed_batch_block s) (calls s) (slashed_call s) (next_call s)
+        (burned s) (gov_und s) (set_mem s) (last_obs s)).
+
+(* environment: validator v changed status (jailed -> unbonding -> unbonded, unjailed -> bonded); observed *)
+Definition env_stat (s : state) (v st untl : Z) : res :=
+  Ok (set_vals_deleg s (set_stat (vals s) v st untl) (deleg s)).
 
 Definition fund (s : state) (a amt : Z) : res :=
   Ok (mkState (height s) (now s) (ubtime s) (vals s) (prm s) (proposal s) (keys s)
@@ -746,6 +807,8 @@ Inductive op :=
 | Fund (a amt : Z)
 | SlashVal (v amount : Z)
 | EnvVal (v tok shr : Z)
+| SlashValPast (v hinf frac : Z) (vs : list (Z * Z * Z)) (rws : list (Z * Z))
+| EnvStat (v st untl : Z)
 | ExecBatch (id : Z)
 | ExportImport
 | ObserveSet (n : Z)
@@ -769,6 +832,8 @@ Definition step (s : state) (o : op) : res :=
   | Fund a amt => fund s a amt
   | SlashVal v amount => slash_val s v amount
   | EnvVal v tok shr => env_val s v tok shr
+  | SlashValPast v hinf frac vs rws => slash_past s v hinf frac vs rws
+  | EnvStat v st untl => env_stat s v st untl
   | ExecBatch id => exec_batch s id
   | ExportImport => export_import s
   | ObserveSet n => observe_set s n
